@@ -230,7 +230,7 @@ class Ctx:
                     code = re.sub(r"\(\*.*?\*\)", "", line)
                     if FORBIDDEN.search(code):
                         bad.append("%s:%d: %s" % (rel, i, line.strip()))
-        self.notes["hygiene_files"] = len(files)
+        self.notes.setdefault("coverage_extra", {})["hygiene_files_scanned"] = len(files)
         return bad
 
     def prove(self, props_file, extra_targets=()):
